@@ -5,6 +5,7 @@
 
 mod c03;
 mod c08;
+mod c09;
 mod c13;
 mod c18;
 mod drive;
@@ -37,6 +38,10 @@ fn main() {
     if args.len() < 3 {
         eprintln!("usage: pvh <Cxx> <quick|thorough> [--replay <file>]");
         std::process::exit(2);
+    }
+    if args[1] == "child-build" {
+        drive::install_panic_hook();
+        std::process::exit(c09::child_build(&args[2..]));
     }
     if args[1] == "debug-emitted" {
         let text = std::fs::read_to_string(&args[2]).unwrap();
@@ -91,6 +96,7 @@ fn main() {
             "C07" => exec_props::replay(&mut ctx, "C07", &case),
             "C15" => exec_props::replay(&mut ctx, "C15", &case),
             "C08" => c08::replay(&mut ctx, &case),
+            "C09" => c09::replay(&mut ctx, &case),
             "C10" | "C11" => resolve_props::replay(&mut ctx, prop, &case),
             "C13" => c13::replay(&mut ctx, &case),
             "C14" | "C16" | "C17" => static_props::replay(&mut ctx, prop, &case),
@@ -114,6 +120,7 @@ fn main() {
         "C07" => exec_props::run(&mut ctx, "C07"),
         "C15" => exec_props::run(&mut ctx, "C15"),
         "C08" => c08::run(&mut ctx),
+        "C09" => c09::run(&mut ctx),
         "C10" => resolve_props::run_c10(&mut ctx),
         "C11" => resolve_props::run_c11(&mut ctx),
         "C13" => c13::run(&mut ctx),
